@@ -21,7 +21,10 @@
   a frame error (H3_FRAME_ERROR), and a FIN that comes with a PUSH_PROMISE or
   unknown-type frame is checked and reported (`DataReceived(b"", stream_ended=True)`).
   So `stream_end_reported` holds for EVERY way the FIN can arrive, and with
-  `content_length_checked` gives `content_length_at_stream_end`.
+  `content_length_checked` gives `content_length_at_stream_end`.  The trace
+  theorems quantify over `QOp`: plain inputs, HEADERS / PUSH_PROMISE frames that
+  block on QPACK, inputs buffered behind them, and the encoder-stream delivery
+  that resumes them through `_receive_stream_data_uni`.
 -/
 import AQ.Proofs.H3Validate
 namespace AQ.Props.C15
@@ -144,14 +147,15 @@ theorem event_after_validate (s : St) (op : Op) :
   · rintro hs e rfl; exact this
   · rintro hs rfl; exact this
 
-/-- The same over whole op sequences, from any state. -/
-theorem events_well_formed (s : St) (ops : List Op) :
-    ∀ ev ∈ trace s ops,
+/-- The same over whole input sequences, from any state, INCLUDING frames that
+    are QPACK-blocked and resumed by the encoder stream (`QOp.hdrb/ppb/unblock`). -/
+theorem events_well_formed (s : St) (ops : List QOp) :
+    ∀ ev ∈ qtrace s ops,
       (∀ hs e, ev = .headers hs e →
         WellFormed .request hs ∨ WellFormed .response hs ∨ WellFormed .trailers hs) ∧
       (∀ hs, ev = .pushPromise hs → WellFormed .push hs) := by
   intro ev hev
-  have := trace_events_wf s ops ev hev
+  have := qtrace_events_wf s ops ev hev
   constructor
   · rintro hs e rfl; exact this
   · rintro hs rfl; exact this
@@ -179,13 +183,15 @@ theorem bad_push_promise_closes (s : St) (hs : Headers) (fin : Bool) (hd : s.don
     stream and every prefix `p` of the reported events that ends with an event
     with `stream_ended = True`: if ANY content-length header of the first
     `HeadersReceived` of `p` declares `n`, the `DataReceived` events of `p`
-    carry exactly `n` bytes. -/
-theorem content_length_checked (isClient isPush : Bool) (ops : List Op) (p : List Event)
-    (hp : p <+: trace { isClient := isClient, isPush := isPush } ops)
+    carry exactly `n` bytes.  The inputs include HEADERS / trailers / PUSH_PROMISE
+    frames that are QPACK-blocked when they (and possibly the FIN and further
+    frames) arrive and are resumed later by `_receive_stream_data_uni`. -/
+theorem content_length_checked (isClient isPush : Bool) (ops : List QOp) (p : List Event)
+    (hp : p <+: qtrace { isClient := isClient, isPush := isPush } ops)
     (ev : Event) (hlast : p.getLast? = some ev) (hend : ev.ended = true)
     (hs0 : Headers) (n : Nat) (hfirst : firstHeaders p = some hs0) (hdecl : n ∈ allDeclaredCL hs0) :
     bodyBytes p = n := by
-  have := (trace_good ops (good_init isClient isPush)).2
+  have := (qtrace_good ops (good_init isClient isPush)).2
   simp only [List.nil_append] at this
   exact this p hp ev hlast hend hs0 n hfirst hdecl
 
@@ -194,33 +200,60 @@ theorem content_length_checked (isClient isPush : Bool) (ops : List Op) (p : Lis
 theorem content_length_error_code (s : St) (e : Err) (h : checkContentLength s = .error e) :
     e = .h3 0x10E := checkContentLength_err s e h
 
-/-- "when a stream ends": whichever way the FIN of the stream arrives (with a
-    HEADERS, DATA, PUSH_PROMISE or unknown-type frame, with the last or with
-    some middle bytes of a DATA frame, or alone), either the connection is
-    closed or the last event returned by that step has `stream_ended = True`. -/
-theorem stream_end_reported (s : St) (op : Op) (hd : s.done = false)
-    (ha : applicable s op = true) (hfin : carriesFin op = true) (hok : (step s op).2.2 = none) :
-    ∃ ev, (step s op).2.1.getLast? = some ev ∧ ev.ended = true :=
-  fin_reports_end s op hd ha hfin hok
+/-- "when a stream ends": whichever way the end of the stream becomes known to
+    the frame handlers — the FIN arrives on a stream that is not blocked (with a
+    HEADERS, DATA, PUSH_PROMISE or unknown-type frame, with the last or with some
+    middle bytes of a DATA frame, or alone), or a stream whose FIN has arrived is
+    unblocked by the QPACK encoder stream — either the connection is closed or
+    the last event returned by that step has `stream_ended = True`. -/
+theorem stream_end_reported (s : St) (q : QOp) (hd : s.done = false)
+    (ha : qapplicable s q = true) (hfin : endsStream s q = true) (hok : (qstep s q).2.2 = none) :
+    ∃ ev, (qstep s q).2.1.getLast? = some ev ∧ ev.ended = true :=
+  qfin_reports_end s q hd ha hfin hok
+
+/-- on a stream that is not blocked, `qstep` is the `step` of the theorems above -/
+theorem unblocked_step (s : St) (op : Op) (hb : s.blocked = none) : qstep s (.plain op) = step s op :=
+  qstep_plain s op hb
 
 /-- The content-length clause in full: for every input sequence on a fresh
-    stream whose last input carries the FIN without closing the connection,
-    any content-length declared by the first `HeadersReceived` equals the number
-    of body bytes of ALL `DataReceived` events. -/
-theorem content_length_at_stream_end (isClient isPush : Bool) (pre : List Op) (op : Op)
-    (hd : (finalState { isClient := isClient, isPush := isPush } pre).done = false)
-    (ha : applicable (finalState { isClient := isClient, isPush := isPush } pre) op = true)
-    (hfin : carriesFin op = true)
-    (hok : (step (finalState { isClient := isClient, isPush := isPush } pre) op).2.2 = none)
+    stream whose last input ends the stream (see `stream_end_reported`) without
+    closing the connection, any content-length declared by the first
+    `HeadersReceived` equals the number of body bytes of ALL `DataReceived` events. -/
+theorem content_length_at_stream_end (isClient isPush : Bool) (pre : List QOp) (q : QOp)
+    (hd : (qfinal { isClient := isClient, isPush := isPush } pre).done = false)
+    (ha : qapplicable (qfinal { isClient := isClient, isPush := isPush } pre) q = true)
+    (hfin : endsStream (qfinal { isClient := isClient, isPush := isPush } pre) q = true)
+    (hok : (qstep (qfinal { isClient := isClient, isPush := isPush } pre) q).2.2 = none)
     (hs0 : Headers) (n : Nat)
-    (hfirst : firstHeaders (trace { isClient := isClient, isPush := isPush } (pre ++ [op])) = some hs0)
+    (hfirst : firstHeaders (qtrace { isClient := isClient, isPush := isPush } (pre ++ [q])) = some hs0)
     (hdecl : n ∈ allDeclaredCL hs0) :
-    bodyBytes (trace { isClient := isClient, isPush := isPush } (pre ++ [op])) = n := by
-  obtain ⟨ev, hlast, hend⟩ := fin_reports_end _ op hd ha hfin hok
-  refine content_length_checked isClient isPush (pre ++ [op]) _ (List.prefix_refl _) ev ?_ hend
+    bodyBytes (qtrace { isClient := isClient, isPush := isPush } (pre ++ [q])) = n := by
+  obtain ⟨ev, hlast, hend⟩ := qfin_reports_end _ q hd ha hfin hok
+  refine content_length_checked isClient isPush (pre ++ [q]) _ (List.prefix_refl _) ev ?_ hend
     hs0 n hfirst hdecl
-  rw [trace_append, List.getLast?_append, hlast]
+  rw [qtrace_append, List.getLast?_append, hlast]
   rfl
+
+/-- Errors of every input, blocked or not: no event, connection done, one of
+    H3_MESSAGE_ERROR / H3_FRAME_UNEXPECTED / H3_FRAME_ERROR. -/
+theorem resume_error_no_event (s : St) (q : QOp) (e : Err) (h : (qstep s q).2.2 = some e) :
+    (qstep s q).2.1 = [] ∧ (qstep s q).1.done = true ∧ (e = .h3 0x10E ∨ e = .h3 0x105 ∨ e = .h3 0x106) :=
+  ⟨(qstep_error_no_events s q e h).1, (qstep_error_no_events s q e h).2, qstep_err s q e h⟩
+
+/-- The resume path checks: a headers-only response (content-length: 5) whose
+    HEADERS were blocked when the FIN arrived, and trailers blocked at the FIN after
+    3 of 5 bytes, close the connection with H3_MESSAGE_ERROR when unblocked; with
+    matching lengths the end is reported. -/
+theorem resumed_end_of_stream_checked :
+    (qstep (qfinal { isClient := true, isPush := false } [.hdrb [hStatus200, hCL [0x35]] true]) .unblock).2
+      = ([], some (.h3 0x10E)) ∧
+    (qstep (qfinal { isClient := true, isPush := false }
+      [.plain (.hdr [hStatus200, hCL [0x35]] false), .plain (.data 3 3 false), .hdrb [([0x78], [0x79])] true]) .unblock).2
+      = ([], some (.h3 0x10E)) ∧
+    qtrace { isClient := true, isPush := false }
+      [.hdrb [hStatus200, hCL [0x33]] false, .plain (.data 3 3 false), .plain .fin, .unblock]
+      = [.headers [hStatus200, hCL [0x33]] false, .data 3 true] := by
+  decide +kernel
 
 /-! ### the former counterexamples of the content-length clause, now checked -/
 
@@ -330,6 +363,9 @@ end AQ.Props.C15
 #print axioms AQ.Props.C15.content_length_error_code
 #print axioms AQ.Props.C15.stream_end_reported
 #print axioms AQ.Props.C15.content_length_at_stream_end
+#print axioms AQ.Props.C15.unblocked_step
+#print axioms AQ.Props.C15.resume_error_no_event
+#print axioms AQ.Props.C15.resumed_end_of_stream_checked
 #print axioms AQ.Props.C15.declared_content_lengths
 #print axioms AQ.Props.C15.differing_content_length_rejected
 #print axioms AQ.Props.C15.differing_content_length_rejected_all
